@@ -3170,9 +3170,11 @@ let yank_pop yank_size text =
   bind get (fun b ->
     let e0 = b.pos in
     if Nat.ltb e0 yank_size
-    then fail
-    else bind (drain (sub e0 yank_size) e0 DForward) (fun _ ->
-           bind (put_pos (sub e0 yank_size)) (fun _ -> yank text (S O))))
+    then ret None
+    else if negb (is_boundary b.buf (sub e0 yank_size))
+         then ret None
+         else bind (drain (sub e0 yank_size) e0 DForward) (fun _ ->
+                bind (put_pos (sub e0 yank_size)) (fun _ -> yank text (S O))))
 
 (** val delete : (str -> str list) -> nat -> str option m **)
 
